@@ -1,5 +1,4 @@
 import LexVerif.Gen.Dragonbox
-import LexVerif.Gen.Logs
 import LexVerif.Spec.Tables
 import LexVerif.Proof.Tables.Walk
 /-! `DRAGONBOX64_POWERS_OF_FIVE`: every row `(hi, lo)` is `⌈10^k⌉` normalised to 128 bits. -/
@@ -15,18 +14,11 @@ theorem pow5_64_halves :
 
 def row64Ok (i v : Nat) : Bool := v == pow10Cache 128 (smallestF64Pow5 + i)
 
-/-- the slice of the dumped `floor_log2_pow10` vector that lines up with the table's powers -/
-def logSlice64 : List Nat :=
-  Gen.Logs.floorLog2Pow10TabBiasedList.drop (smallestF64Pow5 - Gen.Logs.floorLog2Pow10Lo).toNat
-
-/-- declarative form, with the binary exponent the writer itself uses (`floor_log2_pow10(k) - 127`):
-the row is the unique 128-bit `c` with `(c-1)·2^e < 10^k ≤ c·2^e`. -/
-def row64Ceil (i : Nat) (vl : Nat × Nat) : Bool :=
-  decide (IsCeilPow10 128 (smallestF64Pow5 + i) ((vl.2 : Int) - Gen.Logs.floorLog2Pow10TabBias - 127) vl.1)
+/-- declarative form: the row is `⌈10^k / 2^e⌉`, `e = ⌊log₂ 10^k⌋ - 127`, a 128-bit number -/
+def row64Ceil (i v : Nat) : Bool := decide (IsCacheRow 128 (smallestF64Pow5 + i) v)
 
 theorem pow5_64_walk : allIdx row64Ok 0 rows64 = true := by decide +kernel
-theorem pow5_64_ceil_walk :
-    allIdx row64Ceil 0 (List.zip rows64 logSlice64) = true ∧ 619 ≤ logSlice64.length := by decide +kernel
+theorem pow5_64_ceil_walk : allIdx row64Ceil 0 rows64 = true := by decide +kernel
 theorem pow5_64_size : pow5_64Hi.size = n64PowersOfFive ∧ pow5_64Lo.size = n64PowersOfFive
     ∧ (n64PowersOfFive : Int) = largestF64Pow5 - smallestF64Pow5 + 1 := by decide +kernel
 
